@@ -42,7 +42,8 @@ ASSUMPTIONS = ["OSError is never injected here (the medium is damaged at rest, r
 TXT_CHARS = ["G", ":", "\n", "\r", " ", "\0", "-", ",", "é", "z", "0", "F", "/", ".", "#", ">", "=", "*"]
 CLASSES = ["b0", "b1", "b2", "b3", "b4", "b5", "b6", "b7", "00", "FF", "+1"]
 
-CFGIDS = ["10234-5678-6789-09 Testname", "00001-0001-0000-01", "Some Name (version 07)",
+CFGIDS = ["10234-5678-6789-09 Door \tController", "My Project \t (version 07)", "00042-0001-0002-03 a\u00a0 b",
+          "10234-5678-6789-09  two  blanks", "10234-5678-6789-09 Testname", "00001-0001-0000-01", "Some Name (version 07)",
           "99999-9999-9999-99 x", "12345-0000-0001-00 a (version 01)"]
 FILTERS = ["010100B6", "010280B600BE", "0101009B", "01034001800240AD"]
 
@@ -245,12 +246,17 @@ def _with_line_budget(fn, budget):
     return False, n[0]
 
 
+_HUNG = set()   # entry points already seen not to terminate in this process: do not wait for them again
+
+
 def guarded(out, what, fn, text_len, narrow, detail_ctx):
     """run one parse; classify the outcome. Returns (kind, value)."""
     use_alarm = hasattr(signal, "SIGALRM")
+    if what in _HUNG:
+        return "timeout", None
     if use_alarm:
         oldh = signal.signal(signal.SIGALRM, _alarm)
-        signal.setitimer(signal.ITIMER_REAL, 20.0)
+        signal.setitimer(signal.ITIMER_REAL, 3.0 if text_len < 2000 else 20.0)
     try:
         try:
             v = fn()
@@ -263,6 +269,7 @@ def guarded(out, what, fn, text_len, narrow, detail_ctx):
         budget = 200000 + 4000 * text_len
         over, n = _with_line_budget(fn, budget)
         if over:
+            _HUNG.add(what)
             out.fail("C14.non-termination", what, "%s did not finish within %d traced lines (%s)"
                      % (what, budget, detail_ctx), narrow)
         else:
